@@ -163,7 +163,7 @@ impl Prop for C04 {
         let small = graph_strategy(&ALL_KINDS, 0, 9, max_edges_small, &[0, 1, 1, 3, 3, 2, 4, 5, 6], 4);
         let mid = graph_strategy(&ALL_KINDS, 10, 20, max_edges_large, &[0, 1, 3, 4, 5, 6], 3);
         let large = graph_strategy(&ALL_KINDS, 21, 34, max_edges_large, &[0, 1, 3, 4, 5, 6], 3);
-        let boundary = boundary_graph_strategy(&ALL_KINDS, max_edges_large, &[0, 1, 3], 3, 255);
+        let boundary = boundary_graph_strategy(&ALL_KINDS, max_edges_large, &[0, 1, 3], 3, 255).prop_map(|g| tame_path_counts(g, 34));
         (prop_oneof![1500 => small, 100 => mid, 50 => large, 1 => boundary], any::<u32>()).prop_map(|(g, sources)| SpCase { g, sources }).boxed()
     }
     fn random_cases(&self, tier: Tier) -> u32 {
